@@ -54,6 +54,9 @@ def rule_model(program, ctx, prop=P, rid="C12.model"):
                 ctx.bad(finding_at(prop, rid, st, f"NostrQuery.{name} lost its `ge=0` bound: a negative value is accepted" + (" (`LIMIT -1` is unlimited on SQLite: the max_limit cap is bypassed)" if name == "limit" else "")))
             elif name != "limit" and not (isinstance(kw.get("lt"), ast.Constant) and 0 < kw["lt"].value <= 2 ** 32):
                 ctx.bad(finding_at(prop, rid, st, f"NostrQuery.{name} has no upper bound below 2**32: to_bytes(4) in the LMDB scanner overflows"))
+            elif name == "limit" and any(k in kw for k in ("le", "lt", "gt", "multiple_of")):
+                ctx.bad(finding_at(prop, rid, st, "NostrQuery.limit carries an upper bound / extra constraint: a client limit above the cap is meant to be *capped* when the query is built - "
+                                   "as a validation bound it makes the whole filter invalid, subscribe() drops it silently and the REQ returns nothing for it"))
             else:
                 ctx.ok(rid, st, f"NostrQuery.{name}: int, ge=0" + ("" if name == "limit" else f", lt={kw['lt'].value}"))
     mv = program.func("nostr_relay.storage.base:NostrQuery.model_validate")
@@ -459,6 +462,7 @@ def rule_once(program, ctx, prop=P, rid="C12.once"):
 
 
 def run(program, ctx):
+    from .c13 import rule_every_item_sent
     from ..lib import rule_awaited
 
     rule_awaited(program, ctx, P, ANCHORS)
@@ -476,6 +480,10 @@ def run(program, ctx):
         "that the reverse cursor walk yields descending created_at for one match value (scanner arithmetic)",
         "for LMDB plans with several match values the per-value runs are concatenated, not merged, before the cut-off (part of the known finding on MultiIndex/plan order)",
     ]
+    ctx.rule("C12.sender", "the sender forwards every pair the stored query queued: send_subscriptions has no path from the dequeue to the loop head without ws_send", floor=1)
+    rule_every_item_sent(program, ctx, prop=P, rid="C12.sender")
+    from .c01 import rule_hex_total
+    rule_hex_total(program, ctx, prop=P, rid="C12.hextotal")
 
 
 DB = "nostr_relay/storage/db.py"
